@@ -387,4 +387,310 @@ example : ∃ q, parseResponse "GET".toList false
   C30_response_wire_chunked _ 200 _ _ [[104, 105], [33]] [72] "Chunked".toList (by decide +kernel) (by decide +kernel) (by decide +kernel) (by decide +kernel)
     (by decide +kernel) (by decide +kernel) (by decide +kernel) ⟨none, by decide +kernel⟩ (by decide +kernel) (by decide +kernel)
 
+/-! ## the responder writes that wire format -/
+
+theorem packAll_good (h : List (Str × Str)) (hg : ∀ kv ∈ h, GoodName kv.1 ∧ GoodValue kv.2) :
+    packAll (h.map (fun kv => (kv.1, HVal.str kv.2))) = .ok (h.map (fun kv => headerLine kv.1 kv.2)) := by
+  induction h with
+  | nil => rfl
+  | cons kv h ih =>
+    have h1 := packHeader_good (hg kv (by simp)).1 (hg kv (by simp)).2
+    have h2 := ih (fun x hx => hg x (by simp [hx]))
+    simp only [List.map_cons, packAll, h1, h2]
+
+theorem joinBytes_lines (sl : Bytes) (ls : List Bytes) :
+    joinBytes crlf ([sl] ++ ls ++ [[], []]) = sl ++ crlf ++ ls.flatMap (fun l => l ++ crlf) ++ crlf := by
+  induction ls generalizing sl with
+  | nil => simp [joinBytes, crlf]
+  | cons l ls ih =>
+    have := ih l
+    simp only [List.singleton_append, List.cons_append, List.nil_append] at this ⊢
+    simp only [joinBytes, this, List.flatMap_cons]
+    simp [List.append_assoc]
+
+theorem headerBlock_eq (h : List (Str × Str)) :
+    (h.map (fun kv => headerLine kv.1 kv.2)).flatMap (fun l => l ++ crlf) = headerBlock h := by
+  simp [headerBlock, List.flatMap_map, crlf]
+
+theorem statusText_eq (code : Nat) (words : List Str) :
+    "HTTP/1.1 ".toList ++ joinStr [' '] (natStr code :: words) = statusText code words := by
+  unfold statusText
+  simp [joinStr]
+
+/-- `Responder.build` writes the head in the wire format of the response theorems -/
+theorem build_head (date : Str) (r : Responder) (code : Nat) (words : List Str)
+    (hst : r.status = joinStr [' '] (natStr code :: words)) (hw : ∀ w ∈ words, Visible w)
+    (hg : ∀ kv ∈ r.finalHeaders date, GoodName kv.1 ∧ GoodValue kv.2) :
+    r.build date = .ok ({ r with headers := r.finalHeaders date, chunked := r.chunked || r.willChunk date },
+                        responseHead code words (r.finalHeaders date)) := by
+  have hascii : encodeAscii ("HTTP/1.1 ".toList ++ r.status) = .ok ((statusText code words).map Char.toNat) := by
+    rw [hst, statusText_eq]
+    unfold encodeAscii
+    have hv := statusWords_visible code words hw
+    have : (statusText code words).all (fun c => decide (c.toNat < 128)) = true := by
+      rw [List.all_eq_true]
+      intro c hc
+      have key : ∀ (ws : List Str), (∀ w ∈ ws, Visible w) → ∀ c ∈ joinStr [' '] ws, c.toNat < 128 := by
+        intro ws
+        induction ws with
+        | nil => intro _ c hc; simp [joinStr] at hc
+        | cons a rest ih =>
+          intro h c hc
+          cases rest with
+          | nil => simp only [joinStr] at hc; have := (h a (by simp)).2 c hc; omega
+          | cons b rest' =>
+            simp only [joinStr, List.append_assoc, List.singleton_append, List.mem_append, List.mem_cons] at hc
+            rcases hc with hc | rfl | hc
+            · have := (h a (by simp)).2 c hc; omega
+            · decide
+            · exact ih (fun w hw' => h w (by simp [hw'])) c hc
+      simpa using key _ hv c hc
+    simp [this]
+  unfold Responder.build
+  simp only [hascii, packAll_good (r.finalHeaders date) hg]
+  unfold responseHead
+  rw [joinBytes_lines, headerBlock_eq]
+
+theorem packChunk_isEmpty (msg : Bytes) : (packChunk msg).isEmpty = false := by
+  have : packChunk msg ≠ [] := by
+    unfold packChunk
+    intro h
+    have := congrArg List.length h
+    simp [crlf] at this
+  cases h : packChunk msg with
+  | nil => exact absurd h this
+  | cons _ _ => rfl
+
+theorem write_chunked_headed (date : Str) (r : Responder) (msg : Bytes) (hs : r.started = true) (hh : r.headed = true)
+    (hc : r.chunked = true) (hl : r.length = none) :
+    r.write date msg = .ok (r, [packChunk msg]) := by
+  unfold Responder.write
+  simp [hs, hh, hc, hl, packChunk_isEmpty]
+
+/-- chunked mode, head written: the remaining yields go out as chunks, then the terminator -/
+theorem run_chunked (date : Str) (st : Option (Str × List (Str × Str))) (ps : List Bytes) :
+    ∀ (fuel : Nat) (r : Responder) (acc : Bytes), r.started = true → r.headed = true → r.chunked = true →
+      r.length = none → r.ended = false → ps.length + 1 ≤ fuel → (∀ p ∈ ps, p ≠ []) →
+      ∃ r', Responder.run date fuel r ⟨st, ps.map AppItem.yield⟩ true acc = .ok (r', acc ++ chunkedBody ps) := by
+  induction ps with
+  | nil =>
+    intro fuel r acc hs hh hc hl he hf _
+    cases fuel with
+    | zero => omega
+    | succ f =>
+      have hw := write_chunked_headed date r [] hs hh hc hl
+      refine ⟨{ r with ended := true }, ?_⟩
+      have hsvc : r.service date ⟨st, []⟩ true = .ok ({ r with ended := true }, ⟨st, []⟩, true, [packChunk []]) := by
+        simp [Responder.service, he, hw]
+      rw [Responder.run]
+      simp only [he, Bool.false_eq_true, if_false, List.map_nil, hsvc]
+      cases f <;> simp [Responder.run, chunkedBody]
+  | cons p ps ih =>
+    intro fuel r acc hs hh hc hl he hf hne
+    cases fuel with
+    | zero => omega
+    | succ f =>
+      have hp : p.isEmpty = false := by
+        have := hne p (by simp)
+        cases p <;> simp_all
+      have hw := write_chunked_headed date r p hs hh hc hl
+      have hsvc : r.service date ⟨st, (p :: ps).map AppItem.yield⟩ true
+          = .ok ({ r with ended := false }, ⟨st, ps.map AppItem.yield⟩, true, [packChunk p]) := by
+        simp [Responder.service, he, hp, hw, hl]
+      rw [Responder.run]
+      simp only [he, Bool.false_eq_true, if_false, hsvc]
+      obtain ⟨r', hr'⟩ := ih f { r with ended := false } (acc ++ packChunk p) hs hh hc hl rfl
+        (by simp at hf; omega) (fun q hq => hne q (by simp [hq]))
+      refine ⟨r', ?_⟩
+      simp only [List.foldl_cons, List.foldl_nil, List.nil_append]
+      rw [hr']
+      simp [chunkedBody, List.append_assoc]
+
+/-- `start_response(status, headers)` without a Content-Length -/
+theorem start_nolength (r : Responder) (status : Str) (hdrs : List (Str × Str))
+    (hs : r.started = false) (hcl : odGet (loUpdate [] hdrs) "content-length".toList = none) :
+    ∃ ev, r.start status hdrs false
+      = .ok { r with status := status, headers := loUpdate [] hdrs, length := none, evented := ev, started := true } := by
+  unfold Responder.start
+  simp only [Bool.false_and, Bool.false_eq_true, if_false, Bool.not_false, Bool.true_and, hs, hcl]
+  exact ⟨_, rfl⟩
+
+/-- **the responder in chunked mode**: for an application that calls `start_response(status, headers)` without a
+Content-Length (and without a Transfer-Encoding of its own) and yields the non-empty `pieces`, everything
+`Responder.service` queues until the response has ended is the head followed by one chunk per piece and the empty
+chunk.  (`r1` is the responder as `start_response` leaves it.) -/
+theorem run_chunked_app (date status : Str) (hdrs : List (Str × Str)) (pieces : List Bytes) (code : Nat) (words : List Str)
+    (r0 r1 : Responder)
+    (hst : r1.status = joinStr [' '] (natStr code :: words)) (hw : ∀ w ∈ words, Visible w)
+    (hne : ∀ p ∈ pieces, p ≠ [])
+    (h0 : r0.ended = false) (hstart : r0.start status hdrs false = .ok r1)
+    (h1 : r1.started = true ∧ r1.headed = false ∧ r1.ended = false ∧ r1.length = none)
+    (hwc : r1.willChunk date = true)
+    (hg : ∀ kv ∈ r1.finalHeaders date, GoodName kv.1 ∧ GoodValue kv.2) :
+    ∃ r', Responder.run date (pieces.length + 3) r0 ⟨some (status, hdrs), pieces.map AppItem.yield⟩ false []
+      = .ok (r', responseHead code words (r1.finalHeaders date) ++ chunkedBody pieces) := by
+  have hb := build_head date r1 code words hst hw hg
+  obtain ⟨hs1, hh1, he1, hl1⟩ := h1
+  -- the responder right after the head went out
+  generalize hr2 : ({ r1 with headers := r1.finalHeaders date, chunked := r1.chunked || r1.willChunk date, headed := true } : Responder) = r2
+  have h2 : r2.started = true ∧ r2.headed = true ∧ r2.chunked = true ∧ r2.length = none ∧ r2.ended = false := by
+    subst hr2; exact ⟨hs1, rfl, by simp [hwc], hl1, he1⟩
+  have hwrite : ∀ msg, r1.write date msg = .ok (r2, [responseHead code words (r1.finalHeaders date), packChunk msg]) := by
+    intro msg
+    unfold Responder.write
+    subst hr2
+    simp [hs1, hh1, hb, hwc, hl1, packChunk_isEmpty]
+  cases pieces with
+  | nil =>
+    have hsvc : r0.service date ⟨some (status, hdrs), []⟩ false
+        = .ok ({ r2 with ended := true }, ⟨some (status, hdrs), []⟩, true,
+               [responseHead code words (r1.finalHeaders date), packChunk []]) := by
+      unfold Responder.service
+      simp only [h0, Bool.false_eq_true, if_false, hstart, List.isEmpty_nil, if_true, hwrite, List.drop_nil, List.nil_append]
+    refine ⟨{ r2 with ended := true }, ?_⟩
+    rw [Responder.run]
+    simp only [h0, Bool.false_eq_true, if_false, List.map_nil, hsvc]
+    simp [Responder.run, chunkedBody]
+  | cons p ps =>
+    have hp : p.isEmpty = false := by
+      have := hne p (by simp)
+      cases p <;> simp_all
+    have hsvc : r0.service date ⟨some (status, hdrs), (p :: ps).map AppItem.yield⟩ false
+        = .ok ({ r2 with ended := false }, ⟨some (status, hdrs), ps.map AppItem.yield⟩, true,
+               [responseHead code words (r1.finalHeaders date), packChunk p]) := by
+      unfold Responder.service
+      simp only [h0, Bool.false_eq_true, if_false, hstart, List.map_cons, hp, hwrite, h2.2.2.2.1, h2.2.2.2.2, List.drop_succ_cons,
+        List.drop_zero, Bool.or_false]
+    obtain ⟨r', hr'⟩ := run_chunked date (some (status, hdrs)) ps (ps.length + 3) { r2 with ended := false }
+      (responseHead code words (r1.finalHeaders date) ++ packChunk p) h2.1 h2.2.1 h2.2.2.1 h2.2.2.2.1 rfl (by omega)
+      (fun q hq => hne q (by simp [hq]))
+    refine ⟨r', ?_⟩
+    show Responder.run date (ps.length + 3 + 1) r0 _ false [] = _
+    rw [Responder.run]
+    simp only [h0, Bool.false_eq_true, if_false, hsvc]
+    simp only [List.foldl_cons, List.foldl_nil, List.nil_append]
+    rw [hr']
+    simp [chunkedBody, List.append_assoc]
+
+
+/-- **C30, responder frames (chunked)**: a WSGI application that calls `start_response(status, headers)` without
+Content-Length / Transfer-Encoding and yields non-empty pieces, served by `Responder.service` until the response has
+ended and read by the client's `Respondent`: same status, reason, headers (as completed by the responder: Server,
+Date, Transfer-Encoding) and the concatenated pieces as body; what follows on the connection is left untouched. -/
+theorem C30_responder_frames_chunked (method date status : Str) (hdrs : List (Str × Str)) (pieces : List Bytes)
+    (code : Nat) (words : List Str) (rest : Bytes) (r0 r1 : Responder) (te : Str)
+    (hst : r1.status = joinStr [' '] (natStr code :: words)) (hw : ∀ w ∈ words, Visible w)
+    (hc : 200 ≤ code ∧ code ≤ 999) (hlen : (statusText code words).length ≤ MAX_LINE_SIZE)
+    (hp : ∀ p ∈ pieces, p ≠ [] ∧ p.length < 2 ^ 64)
+    (h0 : r0.ended = false) (hstart : r0.start status hdrs false = .ok r1)
+    (h1 : r1.started = true ∧ r1.headed = false ∧ r1.ended = false ∧ r1.length = none)
+    (hwc : r1.willChunk date = true)
+    (hgood : ∀ kv ∈ r1.finalHeaders date, GoodName kv.1 ∧ GoodValue kv.2 ∧ (headerLine kv.1 kv.2).length ≤ MAX_LINE_SIZE)
+    (hcount : (r1.finalHeaders date).length ≤ MAX_HEADERS)
+    (hte : odGet (dictOf (r1.finalHeaders date)) "transfer-encoding".toList = some te) (hte' : lower te = "chunked".toList)
+    (hclok : ∃ cl, contentLength (odGet (dictOf (r1.finalHeaders date)) "content-length".toList) = .ok cl)
+    (hev : isEventStream (dictOf (r1.finalHeaders date)) = false) :
+    ∃ r' wire, Responder.run date (pieces.length + 3) r0 ⟨some (status, hdrs), pieces.map AppItem.yield⟩ false [] = .ok (r', wire)
+      ∧ ∃ q, parseResponse method false (wire ++ rest) = .done q rest
+          ∧ Parsed q code words (r1.finalHeaders date) pieces.flatten := by
+  obtain ⟨r', hrun⟩ := run_chunked_app date status hdrs pieces code words r0 r1 hst hw (fun p h => (hp p h).1) h0 hstart h1 hwc
+    (fun kv h => ⟨(hgood kv h).1, (hgood kv h).2.1⟩)
+  refine ⟨r', _, hrun, ?_⟩
+  obtain ⟨q, hq, hparsed, _⟩ := C30_response_wire_chunked method code words (r1.finalHeaders date) pieces rest te hw hc hlen
+    hgood hcount hte hte' hclok hev hp
+  exact ⟨q, by simpa [List.append_assoc] using hq, hparsed⟩
+
+/-- a concrete application served by the responder and read back by the client (status, a header, two pieces) -/
+def demoServed : Bool :=
+  match Responder.run "Fri, 02 Jan 2026 03:04:05 GMT".toList 5 { chunkable := true }
+      ⟨some ("200 OK".toList, [("X-A".toList, "v".toList)]), [.yield [104, 105], .yield [33]]⟩ false [] with
+  | .ok (_, wire) =>
+    (match parseResponse "GET".toList false (wire ++ [72]) with
+     | .done q rest => decide (q.status = 200 ∧ q.reason = "OK".toList ∧ q.body = [104, 105, 33] ∧ rest = [72]
+         ∧ odGet q.headers "x-a".toList = some "v".toList ∧ q.chunked = true)
+     | _ => false)
+  | _ => false
+
+/-- non-vacuity of `C30_responder_frames_chunked` -/
+example : demoServed = true := by decide +kernel
+
+/-! ## the builder writes that wire format -/
+
+theorem encodeAscii_ok {s : Str} {b : Bytes} (h : encodeAscii s = .ok b) : b = s.map Char.toNat := by
+  unfold encodeAscii at h
+  split at h
+  · cases h; rfl
+  · cases h
+
+theorem build_assemble {S : Std} {r r' : Requester} {msg : Bytes} (h : build S r = .ok (r', msg)) :
+    ∃ p, buildParts S r = .ok p ∧ assemble r.method p.target p.entries p.body = .ok msg ∧ r' = p.req := by
+  unfold build at h
+  split at h
+  · cases h
+  · rename_i p hp
+    split at h
+    · cases h
+    · rename_i m hm
+      simp only [Except.ok.injEq, Prod.mk.injEq] at h
+      exact ⟨p, hp, by rw [hm, h.2], h.1.symm⟩
+
+/-- **C30, built request round trip — partial**: the message `Requester.build` assembles — request line from method and
+target, one `packHeader` line per entry, empty line, body — is parsed by the server into the same method, target,
+header dict and body, provided the entries' lines are the header lines of some well-formed header list `hs` that
+frames the body (Content-Length = its length or none for an empty body, no Transfer-Encoding) and the target is
+visible ASCII.  What is left to the correspondence runs: that `buildParts` produces such a target and such entries
+(it adds `Content-Length` exactly when the body is non-empty) and that `urlsplit`/`quote`/`unquote` take the path
+and query through unchanged. -/
+theorem C30_built_request_roundtrip_partial (S : Std) (method target : Str) (entries : List (Str × HVal)) (body msg rest : Bytes)
+    (hs : List (Str × Str)) (port : Option Nat)
+    (hasm : assemble method target entries body = .ok msg)
+    (hlines : packAll entries = .ok (hs.map (fun kv => headerLine kv.1 kv.2)))
+    (hm : method ∈ METHODS) (ht : Visible target)
+    (hline : (method ++ ' ' :: (target ++ ' ' :: "HTTP/1.1".toList)).length ≤ MAX_LINE_SIZE)
+    (hport : (S.urlsplit target).port = some port)
+    (hgood : ∀ kv ∈ hs, GoodName kv.1 ∧ GoodValue kv.2 ∧ (headerLine kv.1 kv.2).length ≤ MAX_LINE_SIZE)
+    (hcount : hs.length ≤ MAX_HEADERS)
+    (hte : odGet (hs.foldl (fun d kv => loSet d kv.1 kv.2) []) "transfer-encoding".toList = none)
+    (hcl : (body = [] ∧ odGet (hs.foldl (fun d kv => loSet d kv.1 kv.2) []) "content-length".toList = none)
+         ∨ odGet (hs.foldl (fun d kv => loSet d kv.1 kv.2) []) "content-length".toList = some (natStr body.length)) :
+    ∃ q, parseRequest S (msg ++ rest) = .done q rest
+      ∧ q.method = method ∧ q.url = target ∧ q.version = (1, 1)
+      ∧ q.path = S.unquote (S.urlsplit target).path ∧ q.query = (S.urlsplit target).query
+      ∧ q.headers = hs.foldl (fun d kv => loSet d kv.1 kv.2) [] ∧ q.chunked = false ∧ q.body = body := by
+  have hmsg : msg = requestBytes method target hs body := by
+    unfold assemble at hasm
+    split at hasm
+    · cases hasm
+    · rename_i sl hsl
+      rw [hlines] at hasm
+      simp only [Except.ok.injEq] at hasm
+      rw [← hasm, joinBytes_lines, headerBlock_eq, encodeAscii_ok hsl]
+      simp [requestBytes, List.append_assoc]
+  rw [hmsg]
+  exact C30_request_wire_roundtrip S method target hs body rest port hm ht hline hport hgood hcount hte hcl
+
+
+/-- a stand-in for `urllib.parse` that is the identity on plain ASCII paths without query (enough for the demo below) -/
+def plainStd : Std where
+  urlsplit a := ⟨[], [], a, [], [], none, some none, (if a.getLast? = some '#' then (a.dropLast.reverse.dropWhile (· = '?')).reverse else a)⟩
+  quote a := a
+  unquote a := a
+  quotePlus a := a
+  unquotePlus a := a
+
+/-- a concrete request built by `build` and parsed back by `parseRequest` -/
+def demoBuilt : Bool :=
+  match build plainStd ⟨"a.test".toList, 80, "http".toList, "POST".toList, "/p".toList, [], [], [("x-a".toList, .str "v w".toList)],
+                        [1, 2, 3], none, none⟩ with
+  | .ok (_, msg) =>
+    (match parseRequest plainStd (msg ++ [9]) with
+     | .done q rest => decide (q.method = "POST".toList ∧ q.url = "/p".toList ∧ q.body = [1, 2, 3] ∧ rest = [9]
+         ∧ odGet q.headers "x-a".toList = some "v w".toList ∧ odGet q.headers "content-length".toList = some "3".toList
+         ∧ odGet q.headers "host".toList = some "a.test:80".toList)
+     | _ => false)
+  | _ => false
+
+/-- non-vacuity of `C30_built_request_roundtrip_partial` -/
+example : demoBuilt = true := by decide +kernel
+
 end Ioflo.HttpCodec
